@@ -21,3 +21,8 @@ Definition POW_YMAX : Z := 100 * F_ONE.
    (both inside the box): monotone in each argument *)
 Definition pow_mono_ok (x y f x' y' f' : Z) : bool :=
   negb ((F_ONE <=? x) && (x <=? x') && (x' <=? POW_XMAX) && (0 <=? y) && (y <=? y') && (y' <=? POW_YMAX)) || (f <=? f').
+
+(* sub-additivity of the compound accrual over consecutive intervals, as judged on the results:
+   n1 + n2 <= n12 + amtf * f12 * (en + 5) * 2^-53 + 2 ulp   (amtf, f12 floats; en from H4) *)
+Definition holds_C18_cmp_subadditive (en amtf f12 n1 n2 n12 : Z) : bool :=
+  (n1 + n2 - n12 - 2) * F_ONE * F_ONE * F_P53 <=? P18f * amtf * f12 * (en + 5).
